@@ -362,6 +362,8 @@ pub fn run(sink: &mut Sink, rng: &mut Rng, thorough: bool, dir: &Path) {
     let mut rs: Vec<(u64, u64)> = (0..k).map(|_| { let a = rng.below(top - 2); let small = rng.chance(1, 2); let len = 1 + rng.below(if small { 1000 } else { top - 1 - a }); (a, a + len) }).collect();
     if k > 1 && rng.chance(1, 3) { rs[1] = (rs[0].1, rs[0].1 + 5.min(top - rs[0].1)); }
     rs.retain(|r| r.0 < r.1);
+    // a line `t t` is a valid, empty, time range: it must add nothing to the MOC written
+    if depth % 3 == 1 && !rs.is_empty() { let t = ((rs[0].0 + (1u64 << 61)) % top) | 1; rs.push((t, t)); }
     let input = rs.iter().map(|r| format!("{} {}", r.0, r.1)).collect::<Vec<_>>().join("\n") + "\n";
     let outp = dir.join("from_tr.fits");
     let _ = fs::remove_file(&outp);
@@ -532,6 +534,28 @@ pub fn run(sink: &mut Sink, rng: &mut Rng, thorough: bool, dir: &Path) {
     fs::write(&p, doc).unwrap();
     let _ = fs::remove_file(&outp);
     expect_error(sink, &format!("{}: convert ascii '{}'", what, doc), &moc(&["convert", "-f", "ascii", "-t", ty, p.to_str().unwrap(), "fits", op_], None), Some(&outp));
+  }
+  // --moc-id: up to 68 characters fit a FITS card ('...' in columns 11-80); a longer one cannot be written and
+  // must be refused with a message (never a crash), a shorter one must not change the MOC written
+  {
+    let p = dir.join("good.ascii");
+    fs::write(&p, "3/1-4 5/2000 7/").unwrap();
+    let _ = fs::remove_file(&outp);
+    let reference = { let _ = moc(&["convert", "-f", "ascii", "-t", "smoc", p.to_str().unwrap(), "fits", op_], None); decode(&outp, "fits", "hpx") };
+    for len in [1usize, 40, 68, 69, 70, 100, 300] {
+      let id: String = std::iter::repeat("abcdefghij").flat_map(|s| s.chars()).take(len).collect();
+      let _ = fs::remove_file(&outp);
+      let o = moc(&["convert", "-f", "ascii", "-t", "smoc", p.to_str().unwrap(), "fits", "--moc-id", &id, op_], None);
+      sink.count("moc-id-length");
+      if len <= 68 {
+        let got = if o.code == 0 { decode(&outp, "fits", "hpx") } else { format!("exit {} {}", o.code, o.err.lines().next().unwrap_or("")) };
+        if got != reference {
+          sink.impl_failures.push(format!("cli-moc-id: convert ... fits --moc-id <{} chars> wrote {} instead of {}", len, got, reference));
+        }
+      } else {
+        expect_error(sink, &format!("moc-id-too-long: convert ... fits --moc-id <{} chars>", len), &o, Some(&outp));
+      }
+    }
   }
   expect_error(sink, "from-garbage: from timestamp usec 'abc'", &moc(&["from", "timestamp", "--time-type", "usec", "10", "-", "ascii"], Some("abc\n")), None);
   expect_error(sink, "from-depth: from timestamp depth 62", &moc(&["from", "timestamp", "--time-type", "usec", "62", "-", "ascii"], Some("5\n")), None);
